@@ -115,10 +115,18 @@ func genScript(name string, faultP float64, idx int) *Script {
 // Cells: step (3) x action (nActs) x offset bucket.
 func floorScenario(cell int) *Scenario {
 	sc := &Scenario{FailModule: -1}
-	nOff := 160
-	perStep := (int(nActs) - 1) + nOff // every non-truncate action once + truncate at offsets
-	st := Step(cell / perStep % int(nSteps))
-	r := cell % perStep
+	solo := soloCells()
+	peer := 0 // 0 = alone, 1 = next to a well-behaved scripted plugin, 2 = next to a real plugin.Main
+	if cell >= solo {
+		// peer cells: every step x every non-truncate action, whole writes
+		c := cell - solo
+		per := int(nSteps) * (int(nActs) - 1)
+		peer = 1 + c/per%2
+		c %= per
+		cell = c/(int(nActs)-1)*floorPerStep + c%(int(nActs)-1)
+	}
+	st := Step(cell / floorPerStep % int(nSteps))
+	r := cell % floorPerStep
 	act := Action{}
 	if r < int(nActs)-1 {
 		k := ActKind(r)
@@ -133,14 +141,30 @@ func floorScenario(cell int) *Scenario {
 	}
 	s := &Script{Name: "plgalpha"}
 	s.Steps[st] = act
-	s.ByteWrites = cell/(perStep*int(nSteps))%2 == 1
+	s.ByteWrites = cell/(floorPerStep*int(nSteps))%2 == 1
 	s.Files = []GenFile{{Path: "plug_plgalpha/f0.go", Content: "package plug\n"}}
 	sc.Plugins = []*Script{s}
+	switch peer {
+	case 1:
+		sc.Plugins = append(sc.Plugins, &Script{Name: "plgbeta", Files: []GenFile{{Path: "plug_plgbeta/f0.go", Content: "package plug\n"}}})
+	case 2:
+		sc.Plugins = append(sc.Plugins, &Script{Name: "plgbeta", Conforming: true, Files: []GenFile{{Path: "plug_plgbeta/f0.go", Content: "package plug\n"}}})
+	}
 	return sc
 }
 
-// FloorCells is the number of cells of the systematic floor.
-func FloorCells() int { return ((int(nActs) - 1) + 160) * int(nSteps) * 2 }
+const floorOffsets = 160
+
+var floorPerStep = (int(nActs) - 1) + floorOffsets // every non-truncate action once + truncation at offsets
+
+func soloCells() int { return floorPerStep * int(nSteps) * 2 }
+
+// FloorCells is the number of cells of the systematic floor: one plugin alone
+// (every step x every action, truncation at every offset, whole and 1-byte
+// writes) plus the same non-truncate cells next to a well-behaved scripted peer
+// and next to a real plugin.Main peer (whose goodbye and reaping must not depend
+// on what happens to the faulty one).
+func FloorCells() int { return soloCells() + 2*int(nSteps)*(int(nActs)-1) }
 
 func genScenario(o world.Opts) *Scenario {
 	want := 0 // 0 = not a floor run (cell numbers are stored +1)
